@@ -210,6 +210,47 @@ Eval vm_compute in (map fst R1).
     return int(m.group(1)), int(m.group(2)), int(m.group(3))
 
 
+def de_theorem_instances(res, items):
+    """C02_members_are_accepted evaluated on corpus cases.  items: (query index, json text).  Coq computes R2 = the largest
+    sub-environment of the corpus inside the theorem's hypotheses (plain_envb && de_envb), and for each case one of
+    0 = outside the hypotheses (type not closed over R2, a long array, duplicate keys), 1 = a member that is not rejected,
+    2 = a member that IS rejected (would contradict the theorem), 3 = not a member.  Returns (hypotheses hold of R2, |R2|, codes)."""
+    qs = res["queries"]
+    cases = coq_list(["(%s, %s)" % (C.coq_ty(qs[qi]), coq_json(parse_json(text))) for qi, text in items], sep=";\n ")
+    body = ("From TsRs Require Import Corr.%s Spec.Serde Spec.SerdeDe Proofs.Sem_derive_proofs Proofs.De_proofs.\n" % res["envname"] + CR.HEADER + SEM_HEADER + """
+Definition shrink2 (R' : env) : env :=
+  filter (fun p => plain_defb R' (snd p) && ddef_okb is_upper (snd p) && is_ok (decl_of is_upper is_alnum is_numeric R' fuel (snd p))) R'.
+Fixpoint dedup (seen : list str) (R' : env) : env :=
+  match R' with
+  | [] => []
+  | p :: r => if existsb (str_eqb (ts_ident (snd p))) seen then dedup seen r else p :: dedup (ts_ident (snd p) :: seen) r
+  end.
+Definition inst (R2 : env) (E2 : denv) (c : rty * json) : N :=
+  let (t, j) := c in
+  if mono_ty R2 t && small_arr t && wf_json j then
+    match name_of R2 t with
+    | Ok a => if memberb E2 40 a j then match de is_upper R2 40 t j with DReject => 2 | _ => 1 end else 3
+    | _ => 0
+    end
+  else 0.
+Eval vm_compute in
+  (let R2 := shrink2 (shrink2 (shrink2 (shrink2 (shrink2 (shrink2 (dedup [] R)))))) in
+   let E2 := env_of is_upper is_alnum is_numeric R2 fuel in
+   (if plain_envb is_upper is_alnum is_numeric R2 fuel && de_envb is_upper R2 then 1%%N else 0%%N, N.of_nat (length R2),
+    map (inst R2 E2) %s)).
+""" % cases)
+    ok, out = vlib.coq_eval("%s_c02thm" % res["envname"], body, timeout=1800)
+    if not ok:
+        raise vlib.HarnessError("C02 theorem-instance file failed: " + out[-3000:])
+    m = re.search(r"=\s*\((\d+)(?:%N)?,\s*(\d+)(?:%N)?,\s*\[(.*?)\]\s*\)", out, re.S)
+    if not m:
+        raise vlib.HarnessError("C02 theorem-instance file: unexpected output " + out[-500:])
+    codes = [int(x) for x in re.findall(r"\d+", m.group(3).replace("%N", ""))]
+    if len(codes) != len(items):
+        raise vlib.HarnessError("C02 theorem-instance file: %d codes for %d cases" % (len(codes), len(items)))
+    return int(m.group(1)), int(m.group(2)), codes
+
+
 def de_model(res, items, tag="de"):
     """items: (query index, json text).  Spec/SerdeDe.v on each: returns 'A' + re-serialised text (accepted; '?' if the model
     cannot serialise the value), 'M' (a leaf the Rust type cannot represent) or 'R' (rejected)"""
